@@ -37,6 +37,10 @@ LOGICAL = ('and', 'or', 'xor')
 @st.composite
 def setop_cases(draw):
     kind = draw(st.sampled_from(['int', 'str', 'float', 'date', 'tuple', 'mixed', 'ih', 'ih']))
+    # decisive choices first (late draws are pinned to their first option for a share of Hypothesis's examples)
+    op = draw(st.sampled_from(['union', 'intersection', 'difference']))
+    rel = draw(st.sampled_from(['random', 'random', 'identical', 'permuted', 'disjoint', 'subset']))
+    as_container = draw(st.sampled_from(['index', 'index', 'array', 'list']))
     if kind == 'ih':
         n = draw(st.integers(1, 8))
         pool = draw(gen.tree_labels_n(n))
@@ -45,7 +49,6 @@ def setop_cases(draw):
         pool = draw(gen.flat_labels(n, kind))
     k = draw(st.integers(2, 3))
     operands = []
-    rel = draw(st.sampled_from(['random', 'random', 'identical', 'permuted', 'disjoint', 'subset']))
     for q in range(k):
         if rel == 'identical':
             pos = list(range(n))
@@ -62,8 +65,7 @@ def setop_cases(draw):
             if not pos:
                 pos = [0]
         operands.append(pos)
-    return {'kind': kind, 'pool': pool, 'operands': operands, 'rel': rel, 'op': draw(st.sampled_from(['union', 'intersection', 'difference'])),
-            'as_container': draw(st.sampled_from(['index', 'index', 'array', 'list']))}
+    return {'kind': kind, 'pool': pool, 'operands': operands, 'rel': rel, 'op': op, 'as_container': as_container}
 
 
 def check_setop(case):
@@ -130,9 +132,10 @@ def series_operand(draw, pool, kind):
 @st.composite
 def series_cases(draw):
     lk = draw(st.sampled_from(['int', 'str', 'date', 'ih', 'mixed']))
-    n = draw(st.integers(1, 7))
+    opn = draw(st.sampled_from(sorted(OPS)))  # decisive choices first
+    rel = draw(st.sampled_from(['random', 'random', 'same', 'permuted']))
+    n = draw(st.sampled_from([4, 3, 2, 1, 5, 6, 7]))
     pool = draw(gen.tree_labels_n(n)) if lk == 'ih' else draw(gen.flat_labels(n, lk))
-    opn = draw(st.sampled_from(sorted(OPS)))
     if opn in LOGICAL:
         ka = kb = 'bool'
     else:
@@ -145,7 +148,6 @@ def series_cases(draw):
             order = sorted(range(len(x['labels'])), key=lambda i: pool.index(x['labels'][i]))
             x['labels'] = [x['labels'][i] for i in order]
             x['values'] = x['values'][order]
-    rel = draw(st.sampled_from(['random', 'random', 'same', 'permuted']))
     if rel in ('same', 'permuted') or opn in LOGICAL:
         perm = list(range(len(a['labels']))) if (rel == 'same' or lk == 'ih') else list(draw(st.permutations(list(range(len(a['labels']))))))
         vals = draw(st.lists(gen.elements(kb, missing=(kb == 'float64')), min_size=len(perm), max_size=len(perm)))
@@ -261,10 +263,11 @@ def check_series(case):
 
 @st.composite
 def frame_cases(draw):
-    ni, nc = draw(st.integers(1, 5)), draw(st.integers(1, 5))
+    opn = draw(st.sampled_from([o for o in sorted(OPS) if o not in LOGICAL]))  # decisive choices first
+    other = draw(st.sampled_from(['frame', 'frame', 'series', 'same']))
+    ni, nc = draw(st.sampled_from([3, 2, 4, 1, 5])), draw(st.sampled_from([3, 2, 4, 1, 5]))
     ipool = draw(gen.flat_labels(ni, draw(st.sampled_from(['int', 'str']))))
     cpool = draw(gen.flat_labels(nc, draw(st.sampled_from(['str', 'int']))))
-    opn = draw(st.sampled_from([o for o in sorted(OPS) if o not in LOGICAL]))
 
     def operand():
         ri = [p for p in draw(st.permutations(list(range(ni)))) if draw(st.booleans())]
@@ -272,7 +275,6 @@ def frame_cases(draw):
         blks = draw(gen.blocks(len(ri), len(ci), kinds=('int64', 'float64', 'int32', 'bool'), missing=True))
         return {'ri': ri, 'ci': ci, 'blocks': blks}
     a = operand()
-    other = draw(st.sampled_from(['frame', 'frame', 'series', 'same']))
     if other == 'same':
         blks = draw(gen.blocks(len(a['ri']), len(a['ci']), kinds=('int64', 'float64', 'int32', 'bool'), missing=True))
         b = {'ri': list(a['ri']), 'ci': list(a['ci']), 'blocks': blks}
@@ -421,10 +423,10 @@ def tag(case, f):
 
 
 SUBS = [
-    Sub('setops', setop_cases(), check_setop, quick=2000, thorough=48000, tag=tag,
+    Sub('setops', setop_cases(), check_setop, quick=8000, thorough=48000, tag=tag,
         rule='set algebra of indices'),
-    Sub('series_binop', series_cases(), check_series, quick=2000, thorough=48000, tag=tag,
+    Sub('series_binop', series_cases(), check_series, quick=8000, thorough=48000, tag=tag,
         rule='Series op Series vs NumPy on model-aligned arrays; metamorphic label permutation'),
-    Sub('frame_binop', frame_cases(), check_frame, quick=800, thorough=24000, tag=tag,
+    Sub('frame_binop', frame_cases(), check_frame, quick=3200, thorough=24000, tag=tag,
         rule='Frame op Frame / Series vs cell-wise model'),
 ]
